@@ -652,7 +652,9 @@ def execute(history):
                 for a_ in arrs:
                     for name, base in pool.bases:
                         if isinstance(base, pool.np.ndarray) and pool.np.shares_memory(a_, base):
-                            add({"class": "result-aliases-input", "detail": "%s returned an array that shares memory with the pooled input %s" % (json.dumps(op)[:160], name)}, opi)
+                            # returning a view of an argument is not a modification: recorded only (a later WRITE through it by
+                            # the library would show up as input-modified / earlier-result-changed)
+                            bump("info:result_shares_memory_with_an_input")
                             arrs = []
                             break
                 for (opj, a_old, dg_old) in kept:
